@@ -469,6 +469,9 @@ class _Simu(_IObserver, _params.Updatable, ABC):
         if indexMesh != self.__indexMesh:
             self.__indexMesh = indexMesh
             self.__Update_mesh(indexMesh)
+            # the solution vectors follow the restored mesh: those the iteration does not
+            # store would otherwise keep the size of the other mesh
+            self.__Init_Sols_n()
 
         return results
 
